@@ -27,6 +27,19 @@ namespace
         }
         int linecpy(char *dst, size_t size) { return readline_linecpy(&vt.rl, dst, size); }
         const char *history(int k) { return readline_history_pointer(&vt.rl, k); }
+        // vterm_automate_init on the object in use: readline_init + readline_history_init + sline_init with new,
+        // exactly sized blocks; the old blocks are freed (Exact::init releases before it allocates)
+        void reinit(const c15::Cfg &cfg, c15::Sink *sink)
+        {
+            line.init(nullptr, cfg.cap);
+            hist.init(nullptr, cfg.cap * cfg.H);
+            vterm_automate_init(&vt, line.c(), cfg.cap, hist.c(), cfg.H);
+            vterm_set_write_callback(&vt, w, sink);
+            vterm_set_execute_callback(&vt, x, sink);
+            vterm_set_signal_callback(&vt, s, sink);
+            if (cfg.prompt)
+                vt.prefix_string = cfg.prompt;
+        }
         void key(int c) { vterm_automate_newdata(&vt, (int16_t)c); }
         unsigned len() { return (unsigned)sline_size(&vt.rl.line); }
         unsigned cursor() { return vt.rl.line.len - sline_rightsize(&vt.rl.line); }
@@ -39,6 +52,17 @@ namespace
         vf::Exact buf;
         static const char *impl() { return "c"; }
         explicit CSline(unsigned cap) : buf(nullptr, cap) { sline_init(&sl, buf.c(), cap); }
+        void reinit(unsigned cap, bool by_setbuf)
+        {
+            buf.init(nullptr, cap);
+            if (by_setbuf)
+            {
+                sline_setbuf(&sl, buf.c(), cap);
+                sline_reset(&sl);
+            }
+            else
+                sline_init(&sl, buf.c(), cap);
+        }
         int putchar(char c) { return sline_putchar(&sl, c); }
         int newdata(const char *d, int n) { return sline_newdata(&sl, d, n); }
         int backspace(unsigned n) { return sline_backspace(&sl, n); }
@@ -54,6 +78,7 @@ namespace
 } // namespace
 
 VF_SUITE(keys_exhaustive, c15::exhA_count, c15::exhA_run<CTerm>)
+VF_SUITE(keys_reinit, c15::exhR_count, c15::exhR_run<CTerm>)
 VF_SUITE(keys_exhaustive7, c15::exhB_count, c15::exhB_run<CTerm>)
 VF_SUITE(keys_random, c15::rnd_count, c15::rnd_run<CTerm>)
 VF_SUITE(keys_longline, c15::long_count, c15::long_run<CTerm>)
